@@ -171,6 +171,7 @@ def check(run):
             core.rm_rf(scratch)
             os.makedirs(scratch, exist_ok=True)
         phased_failure_family(run)
+        deep_chain_failure(run)
         if drv is not None and run.corr_disagreements == 0:
             run.obligation('trace validation: %d real histories with failing tasks (%d events) accepted by the Lean model' % (run.counts.get('traces_validated', 0), run.counts.get('trace_events_validated', 0)), True)
     finally:
@@ -235,13 +236,74 @@ def phased_failure_family(run):
                     run.fail('lock-left-after-failure', '%s: lock files left: %s' % (desc, locks), rp)
                 if not kf and booms < 1:
                     run.fail('failing-task-not-run', '%s: the failing task never ran' % desc, rp)
+                if kf:
+                    # a later worker (a new process, after the first one has gone) must leave the failed task alone until its lock is cleaned up
+                    r2 = jug_cli(args, d)
+                    calls2 = [l.split() for l in open(os.path.join(d, 'calls.log')).read().split('\n') if l.strip()]
+                    booms2 = len([c for c in calls2 if c[0] == 'boom'])
+                    locks2 = os.listdir(lockdir) if os.path.isdir(lockdir) else []
+                    if booms2 != booms or len(locks2) != 1:
+                        run.fail('failed-task-retried-without-cleanup', '%s, then a second `jug execute` by a new process: the failed task was started %d more time(s), lock files now %s '
+                                 '(a failed lock stays until `cleanup --failed-only`)' % (desc, booms2 - booms, locks2), rp)
+                    from jugverif.loadercheck import jug_cli as _cli
+                    _cli(['cleanup', '--will-cite', '--failed-only', 'jugfile.py'], d)
+                    if os.path.isdir(lockdir) and os.listdir(lockdir):
+                        run.fail('failed-lock-not-cleaned', '%s: `cleanup --failed-only` left %s' % (desc, os.listdir(lockdir)), rp)
             finally:
                 core.rm_rf(d)
+
+
+def deep_chain_failure(run):
+    """a failure while a long chain of tasks is still queued (the failure handling must not depend on the depth of the DAG)"""
+    import jug.jug
+    import jug.task
+    from jug import Task
+    from jug.backends.dict_store import dict_store
+    from jugverif import jugenv, lib
+    N = 1500
+    for kg, kf in ((True, False), (True, True)):
+        jugenv.reset(dict_store())
+        lib.FAULTS.clear()
+        del lib.CALLS[:]
+        lib.FAULTS[7] = ('exc', None)
+        bad = Task(lib.RAW['const'], 7)                       # fails
+        ok_ = Task(lib.RAW['const'], 8)                       # independent
+        chain = [Task(lib.RAW['inc'], 100, ok_)]
+        for j in range(N):
+            chain.append(Task(lib.RAW['inc'], 101 + j, chain[-1]))
+        tail = Task(lib.RAW['add'], 5000, bad, chain[-1])     # depends on the failed one
+        o = jugenv.options()
+        o.execute_keep_going, o.execute_keep_failed, o.aggressive_unload = kg, kf, False
+        o.execute_nr_wait_cycles, o.execute_wait_cycle_time, o.execute_target = 1, 0, None
+        rp = {'kind': 'deep-chain-failure', 'keep_failed': kf, 'depth': N}
+        run.case(('deep-chain-failure', kf), nontrivial=True)
+        run.count('deep_chain_failure_runs')
+        import sys as _sys
+        try:
+            r = jug.jug.execution_loop(list(jug.task.alltasks), o)
+        except BaseException as e:
+            run.fail('failure-handling-breaks-on-deep-dag', 'a task fails while a chain of %d tasks is queued (--keep-going%s): execution_loop raised %s: %s' % (N, ' --keep-failed' if kf else '', type(e).__name__, str(e)[:100]), rp)
+            lib.FAULTS.clear()
+            continue
+        lib.FAULTS.clear()
+        done = sum(1 for t in chain if t.can_load())
+        lk = bad.store.getlock(bad.hash())
+        if not r:
+            run.fail('failure-not-reported', 'deep chain: a task failed but execution_loop reports no failure', rp)
+        if done != len(chain) or not ok_.can_load():
+            run.fail('independent-not-completed', 'deep chain: %d of %d tasks that do not depend on the failed task completed under --keep-going' % (done, len(chain)), rp)
+        if tail.can_load() or bad.can_load():
+            run.fail('failed-or-dependent-stored', 'deep chain: the failed task or its dependent has a result', rp)
+        if kf != bool(lk.is_locked() and lk.is_failed()):
+            run.fail('failed-lock-state', 'deep chain: --keep-failed=%s but the lock of the failed task is locked=%s failed=%s' % (kf, lk.is_locked(), lk.is_failed()), rp)
 
 
 def replay(path):
     import json
     d = json.load(open(path))
+    if d['replay'].get('kind') == 'deep-chain-failure':
+        print(d['what'])
+        return core.replay_family('C11', d['key'], deep_chain_failure)
     if d['replay'].get('kind') == 'phased-failure':
         print(d['what'])
         return core.replay_family('C11', d['key'], phased_failure_family)
